@@ -47,11 +47,11 @@ func init() {
 	rv("K1 (*route.GrafanaNet).retryFlush panic", "msg.CreateMsg only fails on marshalling errors of in-memory structs; http.NewRequest only fails on a malformed URL, validated by NewGrafanaNetConfig", "")
 	rv("K1 (*route.GrafanaNet).retryFlush panic #2", "see retryFlush panic", "")
 	rv("K1 (*route.GrafanaNet).postConfig panic", "http.NewRequest only fails on a malformed URL, validated by NewGrafanaNetConfig", "")
-	rv("K1 (*route.KafkaMdm).run$1 panic", "MarshalMsg of an in-memory MetricData cannot fail (generated msgp code returns errors only from the writer)", "")
-	rv("K1 (*route.KafkaMdm).run$1 panic #2", "Partition only fails for an unknown partitioning method, which NewKafkaMdm rejects (partitioner.NewKafka)", "")
-	rv("K5 (*route.KafkaMdm).run$1 .(github.com/Shopify/sarama.ProducerErrors)", "documented contract of SyncProducer.SendMessages: a non-nil error is a ProducerErrors", "")
+	rv("K1 (*route.KafkaMdm).run$[time.Now] panic", "MarshalMsg of an in-memory MetricData cannot fail (generated msgp code returns errors only from the writer)", "")
+	rv("K1 (*route.KafkaMdm).run$[time.Now] panic #2", "Partition only fails for an unknown partitioning method, which NewKafkaMdm rejects (partitioner.NewKafka)", "")
+	rv("K5 (*route.KafkaMdm).run$[time.Now] .(github.com/Shopify/sarama.ProducerErrors)", "documented contract of SyncProducer.SendMessages: a non-nil error is a ProducerErrors", "")
 	// K2 process exits
-	rv("K2 cmd/carbon-relay-ng.main$2 github.com/sirupsen/logrus.Fatalf", "the admin listener could not be opened at start-up: refusal to start, not a reaction to traffic (telnet.Start only returns the listen error)", "")
+	rv("K2 cmd/carbon-relay-ng.main$[ui/telnet.Start] github.com/sirupsen/logrus.Fatalf", "the admin listener could not be opened at start-up: refusal to start, not a reaction to traffic (telnet.Start only returns the listen error)", "")
 	rv("K2 ui/web.Start os.Exit", "the HTTP admin listener could not be opened at start-up: refusal to start", "")
 	rv("K2 destination.Pickle github.com/sirupsen/logrus.Fatal", "binary.Write of a uint32 into a bytes.Buffer cannot fail", "")
 	// K3
@@ -82,7 +82,6 @@ func init() {
 	rv("K9 destination.addrInstanceSplit index [2] of strings.Split()", "inside `if strings.Count(addr, \":\") == 2`: the split has three elements", "")
 	rv("K9 go-whisper.parseRetentionPart index [1] of (*regexp.Regexp).FindStringSubmatch()", "after retentionRegexp.MatchString succeeded: the expression has two groups", "")
 	rv("K9 go-whisper.parseRetentionPart index [2] of (*regexp.Regexp).FindStringSubmatch()", "see above", "")
-	rv("K9 persister.parseIniFile slice [1:len-1] of strings.TrimSpace()", "the line starts with '[' and ends with ']': two different bytes, so it has at least two characters", "ini section line has both brackets")
 	rv("K9 route.parseMetric index [0] of persister.Schema.Retentions", "getSchemas rejects schemas with an empty retention list", "getSchemas non-empty retentions")
 	// K11
 	rv("K11 (*aggregator.Aggregator).Flush deref of map lookup a.aggregations", "every timestamp in tsList has a bucket in the map: AddOrCreate creates both together and Flush removes both", "AddOrCreate keeps list and map in step")
@@ -261,6 +260,10 @@ func c14r1(c *Check) {
 	perClass := map[string]int{}
 	debug := os.Getenv("CRNG_DEBUG") != ""
 	usedReviewed := map[string]bool{}
+	funcByStableName := map[string]*ssa.Function{}
+	for _, f := range c.P.Funcs {
+		funcByStableName[stableFuncName(f)] = f
+	}
 	for _, s := range sites {
 		perClass[s.Class]++
 		key := s.Key()
@@ -299,6 +302,9 @@ func c14r1(c *Check) {
 				}
 			}
 			guarded := lenGuarded(s.Fn, s.In, s.Val)
+			if !guarded && minLenLG == 2 && distinctEnds(c.P, s.Fn, s.In, s.Val, 0) {
+				guarded = true
+			}
 			minLenLG = 0
 			if guarded {
 				done = "controlled by a test of the slice's length"
@@ -307,7 +313,27 @@ func c14r1(c *Check) {
 			}
 		}
 		if done == "" {
-			if r, ok := reviewedSites[key]; ok {
+			r, ok := reviewedSites[key]
+			if !ok {
+				// the reviewed site may have moved into a helper method that the reviewed function calls
+				// (same type, same operand): the reason given for the function covers its helpers
+				for k2, r2 := range reviewedSites {
+					rest := strings.TrimPrefix(k2, s.Class+" ")
+					if rest == k2 || !strings.HasSuffix(rest, " "+s.What) {
+						continue
+					}
+					owner := funcByStableName[strings.TrimSuffix(rest, " "+s.What)]
+					if owner == nil {
+						continue
+					}
+					for _, w := range workerFuncs(c.P, owner) {
+						if w == s.Fn {
+							r, ok, key = r2, true, k2
+						}
+					}
+				}
+			}
+			if ok {
 				usedReviewed[key] = true
 				done = "reviewed: " + r.reason
 				if r.pre != "" {
@@ -541,55 +567,6 @@ func dischargeEmbeddedConfig(c *Check, s crashSite, ta *ssa.TypeAssert, fld *typ
 	return "method of " + named.Obj().Name() + ": its constructor stores the asserted type and every promoted baseRoute method that stores a configuration is overridden"
 }
 
-func regexFieldAlwaysSet(p *Prog, d *discharger, v ssa.Value) bool {
-	_, f, ok := fieldLoad(v)
-	if !ok {
-		return false
-	}
-	stores := d.fieldStores[f]
-	if len(stores) == 0 {
-		return false
-	}
-	for _, st := range stores {
-		// value is the result of regexp.Compile / MustCompile, stored on a path where err == nil
-		okS := false
-		if ex, ok := st.Val.(*ssa.Extract); ok && ex.Index == 0 {
-			if call, ok := ex.Tuple.(*ssa.Call); ok && calleeName(call.Common()) == "regexp.Compile" {
-				// dominated by the no-error edge
-				for _, b := range st.Parent().Blocks {
-					ifi, ok := b.Instrs[len(b.Instrs)-1].(*ssa.If)
-					if !ok {
-						continue
-					}
-					e, errEdge, ok := errTest(ifi.Cond)
-					if !ok {
-						continue
-					}
-					if ex2, ok := e.(*ssa.Extract); !ok || ex2.Tuple != call {
-						continue
-					}
-					si := 1
-					if !errEdge {
-						si = 0
-					}
-					if edgeDominates(b, b.Succs[si], st.Block()) {
-						okS = true
-					}
-				}
-			}
-		}
-		if call, ok := st.Val.(*ssa.Call); ok && calleeName(call.Common()) == "regexp.MustCompile" {
-			okS = true
-		}
-		if !okS {
-			return false
-		}
-	}
-	// and the struct is only built through that path: every composite of the struct type sets the field.
-	// (Schema.Pattern: assigned in ReadWhisperSchemas before append; zero Schema{} only returned with ok=false)
-	return true
-}
-
 // dischargeClose handles K8.
 func dischargeClose(c *Check, s crashSite) string {
 	cc := callCommon(s.In)
@@ -745,63 +722,6 @@ func c14r2(c *Check) {
 		})
 		c.Judge(okG, "destination.New validates "+par.name+" "+par.nd.String(), c.AtFn(dn), "rejecting comparison dominates the construction", "destination.New no longer rejects a "+par.name+" that makes the destination's goroutines panic later (time.NewTicker / NewWriter / make(chan))")
 	}
-	// parseIniFile: the section-name slice is taken only from lines that start with '[' and end with ']'
-	pif := c.P.Func("persister", "", "parseIniFile")
-	okOpen, okClose := false, false
-	var sect *ssa.Slice
-	allInstrs(pif, func(in ssa.Instruction) {
-		if sl, ok := in.(*ssa.Slice); ok && sl.Low != nil && sl.High != nil {
-			if lo, ok := constInt(sl.Low); ok && lo == 1 {
-				if bo, ok := sl.High.(*ssa.BinOp); ok && bo.Op == token.SUB && isLenOf(bo.X, sl.X) {
-					sect = sl
-				}
-			}
-		}
-	})
-	if sect != nil {
-		for _, b := range pif.Blocks {
-			ifi, ok := b.Instrs[len(b.Instrs)-1].(*ssa.If)
-			if !ok {
-				continue
-			}
-			cnd, neg := negStrip(ifi.Cond)
-			bo, ok := cnd.(*ssa.BinOp)
-			if !ok || (bo.Op != token.EQL && bo.Op != token.NEQ) {
-				continue
-			}
-			var lkX, lkIndex ssa.Value
-			switch lk := bo.X.(type) {
-			case *ssa.Index:
-				lkX, lkIndex = lk.X, lk.Index
-			case *ssa.Lookup:
-				lkX, lkIndex = lk.X, lk.Index
-			}
-			if lkX != sect.X {
-				continue
-			}
-			ch, ok := constInt(bo.Y)
-			if !ok {
-				continue
-			}
-			// the edge on which the byte equals ch
-			si := 0
-			if (bo.Op == token.NEQ) != neg {
-				si = 1
-			}
-			if !edgeDominates(b, b.Succs[si], sect.Block()) {
-				continue
-			}
-			if k, isK := constInt(lkIndex); isK && k == 0 && ch == '[' {
-				okOpen = true
-			}
-			if ib, isB := lkIndex.(*ssa.BinOp); isB && ib.Op == token.SUB && isLenOf(ib.X, sect.X) && ch == ']' {
-				if k, _ := constInt(ib.Y); k == 1 {
-					okClose = true
-				}
-			}
-		}
-	}
-	c.Judge(sect != nil && okOpen && okClose, "persister.parseIniFile section names come from lines with both brackets", c.AtFn(pif), "line[1:len-1] is taken only after line[0] == '[' and line[len-1] == ']' (two different bytes: length >= 2)", "the section-name slice line[1:len(line)-1] is no longer protected by the tests for '[' first and ']' last: a one-character line panics when a schema file is (re)loaded by an admin command")
 	// getSchemas requires a default pattern
 	gs := c.P.Func("route", "", "getSchemas")
 	hasDefault := false
@@ -1028,26 +948,79 @@ func c14r2(c *Check) {
 		}
 	}
 	c.Judge(okRetn, "route.getSchemas rejects schemas without retentions", c.AtFn(gs), "an empty Retentions list is an error", "getSchemas accepts a schema with an empty retention list: parseMetric indexes Retentions[0]")
-	// consistent hashing routes start with >= 2 destinations
+	// consistent hashing routes start with >= 1 destinations: every place that invokes
+	// NewConsistentHashing — directly, or through a constructor parameter that is bound to it —
+	// tests the length of the destination list first
+	nCH := modPath + "/route.NewConsistentHashing"
 	for _, rdr := range [][2]string{{"imperatives", "readAddRouteConsistentHashing"}, {"cfg", "InitRoutes"}} {
 		fn := c.P.Func(rdr[0], "", rdr[1])
 		okTwo := false
-		allInstrs(fn, func(in ssa.Instruction) {
-			if call, ok := in.(*ssa.Call); ok && calleeName(call.Common()) == modPath+"/route.NewConsistentHashing" {
-				for _, b := range fn.Blocks {
-					ifi, ok := b.Instrs[len(b.Instrs)-1].(*ssa.If)
-					if !ok {
-						continue
-					}
-					bo, ok := ifi.Cond.(*ssa.BinOp)
-					if !ok {
-						continue
-					}
-					if k, ok := constInt(bo.Y); ok && isLenOf(bo.X, call.Call.Args[2]) && edgeEstablishes(bo.Op, k, true, false, needPos, false) && edgeDominates(b, b.Succs[1], call.Block()) {
-						okTwo = true
+		// guardBefore: in f, a test `len(dests) REL k` whose continuing edge establishes len > 0 dominates the call
+		guardBefore := func(f *ssa.Function, call *ssa.Call, dests ssa.Value, bind map[*ssa.Parameter]ssa.Value) bool {
+			for _, b := range f.Blocks {
+				ifi, ok := b.Instrs[len(b.Instrs)-1].(*ssa.If)
+				if !ok {
+					continue
+				}
+				bo, ok := ifi.Cond.(*ssa.BinOp)
+				if !ok || !isLenOf(bo.X, dests) {
+					continue
+				}
+				kv := bo.Y
+				if p, ok := kv.(*ssa.Parameter); ok && bind[p] != nil {
+					kv = bind[p]
+				}
+				k, ok := constInt(kv)
+				if !ok {
+					continue
+				}
+				for si := 0; si < 2; si++ {
+					if edgeEstablishes(bo.Op, k, true, si == 0, needPos, false) && edgeDominates(b, b.Succs[si], call.Block()) {
+						return true
 					}
 				}
 			}
+			return false
+		}
+		allInstrs(fn, func(in ssa.Instruction) {
+			call, ok := in.(*ssa.Call)
+			if !ok {
+				return
+			}
+			if calleeName(call.Common()) == nCH {
+				if guardBefore(fn, call, call.Call.Args[2], nil) {
+					okTwo = true
+				}
+				return
+			}
+			// a helper that is handed the constructor
+			g := call.Call.StaticCallee()
+			if g == nil || g.Blocks == nil || !ModuleFunc(g) {
+				return
+			}
+			bind := map[*ssa.Parameter]ssa.Value{}
+			var ctorPar *ssa.Parameter
+			for i, a := range call.Call.Args {
+				if i >= len(g.Params) {
+					break
+				}
+				bind[g.Params[i]] = a
+				if f := resolveFuncValue(a); f != nil && funcCanonical(f) == nCH {
+					ctorPar = g.Params[i]
+				}
+			}
+			if ctorPar == nil {
+				return
+			}
+			allInstrs(g, func(in2 ssa.Instruction) {
+				c2, ok := in2.(*ssa.Call)
+				if !ok || c2.Call.Value != ssa.Value(ctorPar) || len(c2.Call.Args) < 3 {
+					return
+				}
+				if guardBefore(g, c2, c2.Call.Args[2], bind) {
+					okTwo = true
+				}
+			})
 		})
 		c.Judge(okTwo, rdr[0]+"."+rdr[1]+" consistentHashing needs destinations", c.AtFn(fn), "the number of destinations is checked before NewConsistentHashing", "a consistentHashing route can be created without destinations: empty ring")
 	}
@@ -1222,10 +1195,58 @@ func matcherRegexGated(p *Prog, s crashSite) string {
 		return "regex is not assigned the result of regexp.Compile"
 	}
 	comp, ok := ex.Tuple.(*ssa.Call)
-	if !ok || calleeName(comp.Common()) != "regexp.Compile" {
+	if !ok {
 		return "regex is not assigned the result of regexp.Compile"
 	}
-	if _, names := fieldPath(comp.Call.Args[0]); len(names) == 0 || names[len(names)-1] != "Regex" {
+	compiled := comp.Call.Args
+	var compArg ssa.Value
+	switch {
+	case calleeName(comp.Common()) == "regexp.Compile" && ex.Index == 0:
+		compArg = compiled[0]
+	default:
+		// a helper that compiles its argument: on every return it hands back an error, or the
+		// expression compiled from one of its parameters (with a nil error)
+		g := comp.Call.StaticCallee()
+		if g == nil || g.Blocks == nil || !ModuleFunc(g) || ex.Index != 0 {
+			return "regex is not assigned the result of regexp.Compile"
+		}
+		okAll, n := true, 0
+		allInstrs(g, func(in ssa.Instruction) {
+			ret, ok := in.(*ssa.Return)
+			if !ok || len(ret.Results) < 2 {
+				return
+			}
+			last := ret.Results[len(ret.Results)-1]
+			if k, isC := last.(*ssa.Const); !isC || !k.IsNil() {
+				return // error return
+			}
+			n++
+			e0, ok := ret.Results[0].(*ssa.Extract)
+			if !ok || e0.Index != 0 {
+				okAll = false
+				return
+			}
+			c0, ok := e0.Tuple.(*ssa.Call)
+			if !ok || calleeName(c0.Common()) != "regexp.Compile" {
+				okAll = false
+				return
+			}
+			found := false
+			for i, p := range g.Params {
+				if c0.Call.Args[0] == ssa.Value(p) && i < len(compiled) {
+					compArg = compiled[i]
+					found = true
+				}
+			}
+			if !found {
+				okAll = false
+			}
+		})
+		if !okAll || n == 0 || compArg == nil {
+			return "regex is not assigned the result of regexp.Compile"
+		}
+	}
+	if _, names := fieldPath(compArg); len(names) == 0 || names[len(names)-1] != "Regex" {
 		return "the compiled expression is not the Regex option"
 	}
 	for _, b := range ui.Blocks {
@@ -1316,4 +1337,107 @@ func blockIsBeforeConstruction(fn *ssa.Function, b *ssa.BasicBlock) bool {
 		}
 	})
 	return ok
+}
+
+// distinctEnds: at instruction `at`, the string/slice v is known to start with one byte and to end
+// with a different one (v[0] == c1 and v[len(v)-1] == c2, c1 != c2, each on a dominating edge, in
+// this function or — for a parameter — at every call site): it has at least two elements.
+func distinctEnds(p *Prog, fn *ssa.Function, at ssa.Instruction, v ssa.Value, depth int) bool {
+	first, last := endFacts(p, fn, at, v, depth)
+	for c1 := range first {
+		for c2 := range last {
+			if c1 != c2 {
+				return true
+			}
+		}
+	}
+	return false
+}
+
+// endFacts: the byte values v[0] / v[len-1] are known to equal at `at`.
+func endFacts(p *Prog, fn *ssa.Function, at ssa.Instruction, v ssa.Value, depth int) (first, last map[int64]bool) {
+	first, last = map[int64]bool{}, map[int64]bool{}
+	for _, b := range fn.Blocks {
+		ifi, ok := b.Instrs[len(b.Instrs)-1].(*ssa.If)
+		if !ok {
+			continue
+		}
+		cnd, neg := negStrip(ifi.Cond)
+		bo, ok := cnd.(*ssa.BinOp)
+		if !ok || (bo.Op != token.EQL && bo.Op != token.NEQ) {
+			continue
+		}
+		var lkX, lkIndex ssa.Value
+		switch lk := bo.X.(type) {
+		case *ssa.Index:
+			lkX, lkIndex = lk.X, lk.Index
+		case *ssa.Lookup:
+			lkX, lkIndex = lk.X, lk.Index
+		case *ssa.UnOp:
+			if ia, ok := lk.X.(*ssa.IndexAddr); ok {
+				lkX, lkIndex = ia.X, ia.Index
+			}
+		}
+		if lkX == nil || !(lkX == v || sameLoc(lkX, v)) {
+			continue
+		}
+		ch, ok := constInt(bo.Y)
+		if !ok {
+			continue
+		}
+		si := 0 // edge on which the byte equals ch
+		if (bo.Op == token.NEQ) != neg {
+			si = 1
+		}
+		if !edgeDominatesNoFatal(b, b.Succs[si], at.Block()) {
+			continue
+		}
+		if k, isK := constInt(lkIndex); isK && k == 0 {
+			first[ch] = true
+		}
+		if ib, isB := lkIndex.(*ssa.BinOp); isB && ib.Op == token.SUB && isLenOf(ib.X, lkX) {
+			if k, _ := constInt(ib.Y); k == 1 {
+				last[ch] = true
+			}
+		}
+	}
+	if par, ok := v.(*ssa.Parameter); ok && depth < 2 {
+		if args, ok := p.paramArgs(par); ok {
+			// facts every caller establishes before the call
+			var cf, cl map[int64]bool
+			i := 0
+			for _, e := range p.CG().In[fn] {
+				cc := callCommon(e.Site)
+				if cc == nil || e.Kind == EdgeRef {
+					continue
+				}
+				if i >= len(args) {
+					break
+				}
+				f, l := endFacts(p, e.Caller, e.Site, args[i], depth+1)
+				i++
+				if cf == nil {
+					cf, cl = f, l
+				} else {
+					for k := range cf {
+						if !f[k] {
+							delete(cf, k)
+						}
+					}
+					for k := range cl {
+						if !l[k] {
+							delete(cl, k)
+						}
+					}
+				}
+			}
+			for k := range cf {
+				first[k] = true
+			}
+			for k := range cl {
+				last[k] = true
+			}
+		}
+	}
+	return
 }
